@@ -1,3 +1,4 @@
 /- Aggregate: C06 pool-level theorems (namespace C06 of C19.lean) and document-level reuse / string-table / ledger theorems (C06Doc.lean). -/
 import AJ.Props.C19
 import AJ.Props.C06Doc
+import AJ.Props.C05Deser
